@@ -204,6 +204,7 @@ def main(argv=None):
     if args.only: todo = [n for n in todo if n in args.only]
     if not todo:
         print('ENGINE-SELF-CHECK failed: no function under contract for %s' % prop); return 3
+    if args.tier == 'thorough': os.environ['PYVC_CALL_COVERS'] = '1'          # audit: assumed contracts must not make reachable states unreachable
     _G.update(core=core, execu=execu, solve=solve, prop=prop, outdir=outdir)
     ctx = multiprocessing.get_context('fork')
     work = []
